@@ -35,7 +35,12 @@ RULE = (
     "position relative to inner loops: tagged side-effecting ops on index values (test.op, calls to body-less functions, test.op with "
     "an opaque index result), pure arith on loop variables, inline constants, memref.alloc with static / loop-invariant / loop-variant "
     "sizes, memref.subview with static/dynamic offsets and sizes, memref.dim of arguments/allocs/subviews, affine.min tile sizes, and "
-    "tagged ops consuming memrefs. Each recipe carries 2 input vectors (index arguments, memref argument shapes, dynamic bounds). "
+    "tagged ops consuming memrefs. For reuse-memref-allocs also size chains (about a third of the cases): a leaf size (memref.dim of another "
+    "memref, affine.min, in-loop constant, any index) becomes a dynamic size of a subview at position I, memref.dim reads it back (I != the "
+    "leaf's dimension index where the ranks allow), optionally through one or two more subview/dim links, and sizes an alloc; inner dims with "
+    "and without a tagged user, the consumer optionally in a further loop, the other subview sizes arbitrary (static/dynamic mix). "
+    "1..3 memref arguments of rank 1..3; static extents differ per (argument, dimension). "
+    "Each recipe carries 2 input vectors (index arguments, memref argument shapes with pairwise different extents, dynamic bounds). "
     "The real pass(es) run in-process; the module before and after each pass is executed by vlib/interp.py on a machine that records "
     "every tagged op with its evaluated operands (memrefs as root buffer + root shape + offsets + sizes). Oracle: identical event "
     "sequence and index operands; memref operands are the same view of a same-sized buffer, function arguments stay themselves, one "
